@@ -30,7 +30,8 @@ REQUIRED_MONITORS = ('cli_vs_library_bytes', 'discovery_vs_truth', 'discovery_ha
 REQUIRED_CLASSES = ('mol:explicit-only', 'mol:explicit+auto', 'auto-only', 'exclude', 'exclude:several', 'output:given', 'output:default',
                     'input:other-directory', 'distractor:absent-species-topology', 'distractor:foreign-coordinates',
                     'distractor:unknown-extension', 'distractor:system-file-in-list', 'distractor:previous-output',
-                    'species-without-end-files', 'explicit-also-in-list', 'scale:non-default')
+                    'species-without-end-files', 'explicit-also-in-list', 'scale:non-default', 'output-path:absolute',
+                    'output-path:relative-plain', 'output-path:relative-subdir')
 RULE = ('generated directories of 2-4 species with distractor files (topologies of absent species, foreign coordinate files, '
         'unknown extensions, the system file and a previous output in the candidate list, a species without end files) x '
         'explicit/auto/excluded subsets x scales {0.3,0.5,1} x output given/defaulted; discovery under every permutation '
@@ -284,6 +285,14 @@ def run_world(ctx, case):
     os.makedirs(cwd, exist_ok=True)
     out_given = os.path.join(root, 'outdir', 'result.gro')
     os.makedirs(os.path.dirname(out_given), exist_ok=True)
+    out_style = ['absolute', 'relative-plain', 'relative-subdir', 'relative-parent'][int(rng.integers(0, 4))]
+    if out_style == 'relative-plain':
+        out_given = 'result.v2.gro'                       # relative to the working directory, dots in the name
+    elif out_style == 'relative-subdir':
+        os.makedirs(os.path.join(cwd, 'sub'), exist_ok=True)
+        out_given = os.path.join('sub', 'result.gro')
+    elif out_style == 'relative-parent':
+        out_given = os.path.join('..', 'outdir', 'result.gro')
     init_arg = w['system_gro'] if other_dir else os.path.relpath(w['system_gro'], cwd)
     argv = ['gaddlemaps', init_arg]
     for n in explicit:
@@ -343,6 +352,8 @@ def run_world(ctx, case):
     ctx.count('evaluations')
     ctx.hit('mol:' + mode if mode != 'auto-only' else 'auto-only')
     ctx.hit('output:' + out_mode)
+    if out_mode == 'given':
+        ctx.hit('output-path:' + out_style)
     if other_dir:
         ctx.hit('input:other-directory')
     if scale != 0.5:
